@@ -11,6 +11,7 @@ import (
 	"runtime"
 	"sort"
 	"strings"
+	"sync/atomic"
 	"testing"
 	"testing/synctest"
 	"time"
@@ -55,6 +56,12 @@ type RCEvent struct {
 	Reply      *model.Packet
 }
 
+// curWorld is the world of the run in progress (used by the yield hook).
+var curWorld atomic.Pointer[world.World]
+
+// yieldBuild is true in binaries built from the yield-instrumented copy.
+var yieldBuild bool
+
 var gaugeNames = []string{"serve_accepted", "handle_handlers", "sessions_active", "waitgroup_handle_routines_active"}
 
 func readGauges() map[string]float64 {
@@ -91,7 +98,18 @@ type cli struct {
 	srvReqs int
 }
 
+type pubReq struct {
+	text []byte
+	doc  int
+	seq  int
+}
+
 type sched struct {
+	pubQ       chan pubReq
+	lookupCtx  context.Context
+	lookups    int // lookups started and not finished
+	evScan     int
+	pubFlight  int
 	p          *plan.Plan
 	w          *world.World
 	res        *Result
@@ -127,10 +145,17 @@ func Run(t *testing.T, p *plan.Plan) (res *Result) {
 }
 
 func run(p *plan.Plan, res *Result) {
-	w := world.New(world.NewTape(p.Tape), p.Park)
+	w := world.New(world.NewTape(p.Tape), nil)
+	curWorld.Store(w)
+	defer curWorld.Store(nil)
 	s := &sched{p: p, w: w, res: res, tinyBudget: 600}
+	if p.Build == "yield" && !yieldBuild {
+		res.Harness = "plan needs the yield-instrumented build"
+		return
+	}
 	ctx, cancel := context.WithCancel(context.Background())
 	s.cancel = cancel
+	w.Quiet = p.Build == "race" && p.Family == "race-batches"
 	lg := sut.NewLogger(w)
 	s.recGauges("baseline")
 
@@ -162,13 +187,32 @@ func run(p *plan.Plan, res *Result) {
 		}
 		s.ref = ref
 		provider = ref.Provider
+	case "lookup":
+		// configuration lookups against the real loader, no tacquito server
+		if len(p.Scen.Docs) == 0 {
+			res.Harness = "lookup scenario without documents"
+			cancel()
+			return
+		}
+		kc := sut.KeychainFromDocs(w, p.Scen.Docs, nil)
+		ref, err := sut.BuildRef(ctx, w, lg, kc, p.Scen.Format, p.Scen.Docs[0].Render(p.Scen.Format), p.Scen.Clients)
+		if err != nil {
+			res.Harness = "build ref: " + err.Error()
+			cancel()
+			return
+		}
+		s.ref = ref
+		s.lookupCtx = ctx
+		provider = ref.Provider
 	case "none":
 	default:
 		res.Harness = "unknown server kind " + p.Scen.Server
 		cancel()
 		return
 	}
-	if provider != nil {
+	// parking sites are armed only now: the initial configuration load must not park
+	w.Arm(p.Park)
+	if provider != nil && p.Scen.Server != "lookup" {
 		s.hasServer = true
 		srv := tq.NewServer(lg, provider)
 		s.serveDone = make(chan struct{})
@@ -260,7 +304,7 @@ func (s *sched) runTap() {
 		}
 	}
 	for ci, c := range s.clis {
-		if !c.dialed {
+		if !c.dialed || c.conn == nil {
 			continue
 		}
 		// client -> server stream as written, cut at every delivery boundary
@@ -341,6 +385,9 @@ func (s *sched) enabled(step int) []event {
 			}
 			continue
 		}
+		if c.conn == nil {
+			continue
+		}
 		if c.real != nil {
 			if c.conn.InflightS2C() > 0 {
 				ev = append(ev, event{"deliver-s2c", c.i, 3})
@@ -371,9 +418,31 @@ func (s *sched) enabled(step int) []event {
 				continue
 			}
 		}
+		if c.Kind == "publish" && s.p.Scen.Server == "lookup" && s.publishInFlight() {
+			continue
+		}
 		ev = append(ev, event{"ctl", j, 1})
 	}
 	return ev
+}
+
+// publishInFlight: a published document has not been applied (or rejected) yet.
+func (s *sched) publishInFlight() bool {
+	evs := s.w.EventsSince(s.evScan)
+	s.evScan += len(evs)
+	for _, e := range evs {
+		switch {
+		case e.Kind == "publish":
+			s.pubFlight++
+		case e.Kind == "publish-done" && e.S != "":
+			s.pubFlight--
+		case e.Kind == "log" && strings.Contains(e.S, "updated all prefix filters"):
+			if s.pubFlight > 0 {
+				s.pubFlight--
+			}
+		}
+	}
+	return s.pubFlight > 0
 }
 
 func (s *sched) clientRunnable(c *cli) bool {
@@ -433,6 +502,9 @@ func (s *sched) loop() {
 				synctest.Wait()
 				continue
 			}
+			if s.workPending() && !canAdvance && s.futureWork(step) {
+				continue // nothing to do in this step; later steps enable more (not_before)
+			}
 			break
 		}
 		if s.p.Scen.Stall && canAdvance {
@@ -472,6 +544,21 @@ func (s *sched) loop() {
 			}
 		}
 	}
+}
+
+// futureWork: some client or control event becomes enabled at a later step.
+func (s *sched) futureWork(step int) bool {
+	for _, c := range s.clis {
+		if !c.dialed && c.spec.NotBefore > step {
+			return true
+		}
+	}
+	for j, c := range s.p.Scen.Ctl {
+		if !s.ctlDone[j] && c.NotBefore > step {
+			return true
+		}
+	}
+	return false
 }
 
 // workPending: is anything still expected to happen without further client action?
@@ -555,6 +642,15 @@ func (s *sched) apply(e event) {
 	case "dial":
 		c := s.clis[e.i]
 		addr := sut.AddrOf(c.spec, c.i)
+		if s.p.Scen.Server == "lookup" {
+			c.dialed = true
+			c.op = len(c.spec.Ops)
+			prov := s.ref.Provider
+			ctx := s.lookupCtx
+			s.w.Rec(world.Ev{Actor: "sched", Kind: "lookup", Conn: c.i + 1, S: addr.String()})
+			go func() { prov.Get(ctx, addr) }()
+			return
+		}
 		c.conn = s.w.NewConn(c.i+1, addr, c.spec.Real)
 		c.conn.WFault = c.spec.WFault
 		c.dialed = true
@@ -718,7 +814,7 @@ func (s *sched) clientStep(c *cli) {
 // tap parses what the server has written on each model-client connection.
 func (s *sched) tap() {
 	for _, c := range s.clis {
-		if !c.dialed || c.real != nil {
+		if !c.dialed || c.real != nil || c.conn == nil {
 			continue
 		}
 		b := c.conn.ClientTake()
@@ -765,15 +861,23 @@ func (s *sched) ctl(j int) {
 		s.publishSeq++
 		seq := s.publishSeq
 		s.w.Rec(world.Ev{Actor: "sched", Kind: "publish", A: int64(c.N), B: int64(seq)})
-		src := s.ref.Src
-		go func() {
-			err := src.Unmarshal(text)
-			e := ""
-			if err != nil {
-				e = err.Error()
-			}
-			s.w.Rec(world.Ev{Actor: "loader", Kind: "publish-done", A: int64(c.N), B: int64(seq), S: e})
-		}()
+		// like the file watcher, one goroutine feeds documents to the loader front end,
+		// one after the other
+		if s.pubQ == nil {
+			s.pubQ = make(chan pubReq, 64)
+			src := s.ref.Src
+			go func() {
+				for rq := range s.pubQ {
+					err := src.Unmarshal(rq.text)
+					e := ""
+					if err != nil {
+						e = err.Error()
+					}
+					s.w.Rec(world.Ev{Actor: "loader", Kind: "publish-done", A: int64(rq.doc), B: int64(rq.seq), S: e})
+				}
+			}()
+		}
+		s.pubQ <- pubReq{text: text, doc: c.N, seq: seq}
 	}
 }
 
@@ -797,6 +901,9 @@ func (s *sched) drain() {
 	}
 	if !s.hasServer {
 		synctest.Wait()
+		if s.p.Scen.Server == "lookup" {
+			s.cancel()
+		}
 		return
 	}
 	if !s.cancelled {
